@@ -67,7 +67,8 @@ pub struct Bind {
 
 const CS: [&str; 7] = ["", "va", "vb", "vc", "vd", "ve", "vf"];
 const ACT: [char; 7] = [' ', '~', '!', '?', '+', '<', '>'];
-const CC: [char; 7] = [' ', 'Q', 'R', 'S', 'T', 'U', 'V'];
+// the second character's code is the first one's plus 65536: tables indexed by character code must keep them apart
+const CC: [char; 7] = [' ', 'Q', '\u{10051}', 'S', 'T', 'U', 'V'];
 
 fn def_prefixes(global: bool, pick: usize) -> &'static str {
     if global {
@@ -104,6 +105,8 @@ impl Bind {
             K::NewIntArrayElem => format!("\\newIntArray\\{} 5 ", CS[s]),
             K::Font => "\\font\\fa=fa \\font\\fb=fb ".to_string(),
             K::MathCode => format!("\\mathcode`\\{}=4 ", CC[s]),
+            // assigned at depth 0 like the math code, so the table does not depend on the character's default
+            K::CatCode => format!("\\catcode`\\{}=11 ", CC[s]),
             _ => String::new(),
         }
     }
